@@ -1241,7 +1241,10 @@ func (c *Context) quantize(d, v *Decimal, exp int32) Condition {
 	diff := exp - v.Exponent
 	d.Set(v)
 	var res Condition
-	if diff < 0 {
+	if diff < 0 && d.IsZero() {
+		// A zero has no digits to rescale: only its exponent changes, however
+		// far apart the two exponents are.
+	} else if diff < 0 {
 		if diff < MinExponent {
 			return SystemUnderflow | Underflow
 		}
